@@ -324,16 +324,41 @@ class PendingWhile(_PendingLoop[While]):
 
         # add additional check in "test"
         # if there is a break
+        while_loop_test = expr_transf(self.nsp, self.node.test)
+        while_loop_ifs: list[expr] = []
+        if any(isinstance(_node, NamedExpr) for _node in walk(while_loop_test)):
+            # An assignment expression is not allowed in the iterable of a
+            # comprehension (and it would bind inside the lambda there):
+            # the test becomes the condition of the comprehension, where it binds
+            # in the enclosing scope, and the lambda only looks at a flag
+            # that the condition sets once the test fails.
+            while_stop_expr = Name(id=ol_name(OL_WHILE_TMP))
+            while_loop_final.append(
+                NamedExpr(target=while_stop_expr, value=Constant(value=False))
+            )
+            while_loop_ifs.append(
+                BoolOp(
+                    op=Or(),
+                    values=[
+                        while_loop_test,
+                        UnaryOp(
+                            op=Not(),
+                            operand=NamedExpr(
+                                target=while_stop_expr, value=Constant(value=True)
+                            ),
+                        ),
+                    ],
+                )
+            )
+            while_loop_test = UnaryOp(op=Not(), operand=while_stop_expr)
         if self.break_cnt:
             while_loop_test = BoolOp(
                 op=And(),
                 values=[
                     UnaryOp(op=Not(), operand=self.flow_ctrl_break_expr),
-                    expr_transf(self.nsp, self.node.test),
+                    while_loop_test,
                 ],
             )
-        else:
-            while_loop_test = expr_transf(self.nsp, self.node.test)
 
         # "orelse" runs if there's no break
         while_loop_orelse: expr
@@ -382,7 +407,7 @@ class PendingWhile(_PendingLoop[While]):
                         ],
                         keywords=[],
                     ),
-                    ifs=[],
+                    ifs=while_loop_ifs,
                     is_async=0,
                 )
             ],
@@ -423,22 +448,32 @@ class PendingFor(_PendingLoop[For]):
             self.node, self.nsp, self.nsp_global  # type: ignore
         ).assign_auto(self.node.target, Name(id=for_target_tmp, ctx=Load()))
 
+        for_loop_final: list[expr] = []
+
+        for_loop_iter = expr_transf(self.nsp, self.node.iter)
+        if any(isinstance(_node, NamedExpr) for _node in walk(for_loop_iter)):
+            # an assignment expression is not allowed in the iterable of a
+            # comprehension: evaluate the iterable in front of it
+            for_loop_final.append(
+                NamedExpr(target=self.flow_ctrl_wrapped_iter_expr, value=for_loop_iter)
+            )
+            for_loop_iter = self.flow_ctrl_wrapped_iter_expr
+
         if self.interrupt_cnt == 0 and len(self.node.orelse) == 0:
-            return [
+            for_loop_final.append(
                 ListComp(
                     elt=self.nsp_global.expr_wraper(self.converted_body),
                     generators=[
                         comprehension(
                             target=Name(id=for_target_tmp, ctx=Store()),
-                            iter=expr_transf(self.nsp, self.node.iter),
+                            iter=for_loop_iter,
                             ifs=[],
                             is_async=0,
                         )
                     ],
                 )
-            ]
-
-        for_loop_final: list[expr] = []
+            )
+            return for_loop_final
 
         # init the flow-control vars
         if self.flow_ctrl_interrupt_used:
@@ -460,21 +495,19 @@ class PendingFor(_PendingLoop[For]):
 
         # we don't need use iter_wrapper
         # if we don't use break
-        if self.break_cnt == 0:
-            for_loop_iter = expr_transf(self.nsp, self.node.iter)
-        else:
+        if self.break_cnt:
             from .presets import iter_wrapper_name
 
             self.nsp_global.use_preset_iter_wrapper = True
-            for_loop_iter = self.flow_ctrl_wrapped_iter_expr
             iter_wrapper_instance = NamedExpr(
                 target=self.flow_ctrl_wrapped_iter_expr,
                 value=Call(
                     func=iter_wrapper_name,
-                    args=[expr_transf(self.nsp, self.node.iter)],
+                    args=[for_loop_iter],
                     keywords=[],
                 ),
             )
+            for_loop_iter = self.flow_ctrl_wrapped_iter_expr
             for_loop_final.append(iter_wrapper_instance)
 
         # "orelse" runs if there's no break
